@@ -34,7 +34,7 @@ fn preimage(tx: &Transaction, op: &Op, spent: &[TxOut], genesis: BlockHash) -> S
             Op::Segwit(i, t, s, v) => match c.encode_segwitv0_signing_data_to(&mut w, *i, &Script::from(s.clone()), *v, ecdsa(*t).unwrap()) { Ok(()) => ok_hex(&w), Err(_) => "err:encode".into() },
             Op::Taproot(..) | Op::Key(..) | Op::ScriptSpend(..) | Op::ScriptPathSpend(..) => {
                 let (i, t, pv, annex, leaf) = match op.clone() {
-                    Op::ScriptPathSpend(i, t, p, sc) => (i, t, p, None, Some((elements::sighash::ScriptPath::with_defaults(&Script::from(sc)).leaf_hash().to_byte_array(), 0xffff_ffffu32))),
+                    Op::ScriptPathSpend(i, t, p, sc, v, _) => (i, t, p, None, Some((leaf_hash_def(v, &sc), 0xffff_ffffu32))),
                     Op::Taproot(i, t, p, a, l) => (i, t, p, a, l),
                     Op::Key(i, t, p) => (i, t, p, None, None),
                     Op::ScriptSpend(i, t, p, h) => (i, t, p, None, Some((h, 0xffff_ffffu32))),
@@ -62,7 +62,7 @@ fn spec_defined(tx: &Transaction, op: &Op, spent: &[TxOut]) -> Option<bool> {
     match op {
         Op::Legacy(i, _, _) | Op::Segwit(i, _, _, _) => Some(*i < nin),
         Op::Taproot(..) | Op::Key(..) | Op::ScriptSpend(..) | Op::ScriptPathSpend(..) => {
-            let (i, t, pv, annex) = match op { Op::ScriptPathSpend(i, t, p, _) => (*i, *t, p, None), Op::Taproot(i, t, p, a, _) => (*i, *t, p, a.clone()), Op::Key(i, t, p) => (*i, *t, p, None), Op::ScriptSpend(i, t, p, _) => (*i, *t, p, None), _ => unreachable!() };
+            let (i, t, pv, annex) = match op { Op::ScriptPathSpend(i, t, p, _, _, _) => (*i, *t, p, None), Op::Taproot(i, t, p, a, _) => (*i, *t, p, a.clone()), Op::Key(i, t, p) => (*i, *t, p, None), Op::ScriptSpend(i, t, p, _) => (*i, *t, p, None), _ => unreachable!() };
             let ty = schnorr(t)?;
             match pv { Pv::One(j) | Pv::OneX(j, _) => { if !(*j == i && schnorr_acp(ty)) { return None; } } Pv::All => {} }
             let annex_ok = match &annex { None => true, Some(a) => a.first() == Some(&0x50) };
@@ -103,7 +103,7 @@ pub fn eval(case: &str) -> Out {
         match op {
             Op::Key(i, t, p) => { let d2 = query(&mut SighashCache::new(&tx), &Op::Taproot(*i, *t, p.clone(), None, None), &spent, genesis);
                 if d2 != digest { fails.push(format!("entry-point-disagree|query {} ({}): key-spend {} vs taproot_sighash {}", k, show_op(op), digest, d2)); } }
-            Op::ScriptPathSpend(i, t, p, sc) => { let h = elements::sighash::ScriptPath::with_defaults(&Script::from(sc.clone())).leaf_hash().to_byte_array();
+            Op::ScriptPathSpend(i, t, p, sc, v, _) => { let h = leaf_hash_def(*v, sc);
                 let d2 = query(&mut SighashCache::new(&tx), &Op::Taproot(*i, *t, p.clone(), None, Some((h, 0xffff_ffff))), &spent, genesis);
                 if d2 != digest { fails.push(format!("entry-point-disagree|query {} ({}): script-spend from a script {} vs taproot_sighash {}", k, &show_op(op)[..40.min(show_op(op).len())], digest, d2)); } }
             Op::ScriptSpend(i, t, p, h) => { let d2 = query(&mut SighashCache::new(&tx), &Op::Taproot(*i, *t, p.clone(), None, Some((*h, 0xffff_ffff))), &spent, genesis);
@@ -134,7 +134,7 @@ fn rtap(rng: &mut ChaCha20Rng, idx: usize, t: u8, spent: &[TxOut], tags: &mut Ve
     match rng.gen_range(0..8) {
         0 => { tags.push("entry:key-spend".into()); Op::Key(idx, t, pv) }
         1 => { tags.push("entry:script-spend".into()); Op::ScriptSpend(idx, t, pv, r32(rng)) }
-        2 => { tags.push("entry:script-spend-from-script".into()); let sc = rleafscript(rng, false, tags); Op::ScriptPathSpend(idx, t, pv, sc) }
+        2 => { tags.push("entry:script-spend-from-script".into()); let sc = rleafscript(rng, false, tags); let (v, pos) = rleafver(rng, tags); Op::ScriptPathSpend(idx, t, pv, sc, v, pos) }
         _ => {
             let leaf = if rng.gen_range(0..2) == 0 { tags.push("scriptpath".into()); Some((r32(rng), pk!(rng, [0xffff_ffffu32, 0, 7, rng.gen()]))) } else { tags.push("keypath".into()); None };
             if leaf.map(|l| l.1 != 0xffff_ffff).unwrap_or(false) { tags.push("codesep".into()); }
@@ -219,7 +219,14 @@ pub fn gen(rng: &mut ChaCha20Rng, n: usize, thorough: bool) -> Vec<Case> {
         let tx = rsigtx(rng, &mut tags);
         let spent: Vec<TxOut> = (0..tx.input.len()).map(|_| rtxout(rng, Feat { big: false, no_witness: true }, &mut vec![])).collect();
         let lens: &[usize] = if thorough { &[0, 1, 252, 253, 254, 255, 256, 65535, 65536, 65537] } else { &[0, 252, 253, 254, 65535, 65536] };
-        let ops: Vec<Op> = lens.iter().map(|&n| Op::ScriptPathSpend(0, *pick(rng, &SCHNORR_TYPES), Pv::All, rbytes(rng, n))).collect();
+        let ops: Vec<Op> = lens.iter().map(|&n| Op::ScriptPathSpend(0, *pick(rng, &SCHNORR_TYPES), Pv::All, rbytes(rng, n), 0xc4, 0xffff_ffff)).collect();
+        let mut c = mk_case(&tx, &spent, r32(rng), &ops, tags, true);
+        c.text = format!("C03{}", &c.text[3..]);
+        out.push(c);
+        // targeted: ScriptPath::new with every kind of leaf version other than the default, and a code-separator position (which the entry point ignores)
+        let mut tags = vec!["src:targeted-leaf-versions".to_string()];
+        let ops: Vec<Op> = [0xc0u8, 0xc2, 0xc6, 0xfe, 0x66, 0x00, 0x7e].iter().map(|&v| Op::ScriptPathSpend(0, *pick(rng, &SCHNORR_TYPES), Pv::All, rbytes(rng, 34), v, pk!(rng, [0xffff_ffffu32, 0, 5]))).collect();
+        for o in &ops { if let Op::ScriptPathSpend(_, _, _, _, v, _) = o { tags.push(format!("leafver:{:02x}", v)); } }
         let mut c = mk_case(&tx, &spent, r32(rng), &ops, tags, true);
         c.text = format!("C03{}", &c.text[3..]);
         out.push(c);
